@@ -33,6 +33,14 @@ pub struct Scenario {
     pub one_byte_reads: bool,
     pub write_chunk: u8,
     pub sched: u64,
+    /// an unsolicited notification (message id 0) is written directly in front of this response PDU (index into the
+    /// merged response stream): whatever follows it in the same read must be handled as if it were not there
+    #[serde(default)]
+    pub notice_before: Option<u8>,
+    /// adapted (EntriesOnly) streams get a SearchResultReference in front of every second entry: the adapter skips it
+    /// and fetches the next item inside the same next() call
+    #[serde(default)]
+    pub refs: bool,
 }
 
 #[derive(Clone, Debug, PartialEq, Serialize, Deserialize)]
@@ -62,7 +70,9 @@ fn strat(_: &Ctx) -> BoxedStrategy<Scenario> {
         30 => (0u8..7, any::<bool>(), proptest::option::weighted(0.4, 0u8..3)).prop_map(|(n, a, p)| OpS::Stream(n, a, p)),
         1 => proptest::sample::select(&[16_300u32, 17_000, 33_000, 70_000][..]).prop_map(OpS::BigAdd),
     ];
-    (vec(op, 1..=5), vec(any::<u16>(), 32), proptest::bool::weighted(0.3), 0u8..8, any::<u64>()).prop_map(|(ops, ranks, one_byte_reads, write_chunk, sched)| Scenario { ops, ranks, one_byte_reads, write_chunk, sched }).boxed()
+    (vec(op, 1..=5), vec(any::<u16>(), 32), proptest::bool::weighted(0.3), 0u8..8, any::<u64>(), proptest::option::weighted(0.3, 0u8..12), any::<bool>())
+        .prop_map(|(ops, ranks, one_byte_reads, write_chunk, sched, notice_before, refs)| Scenario { ops, ranks, one_byte_reads, write_chunk, sched, notice_before, refs })
+        .boxed()
 }
 
 fn tok(i: usize, s: usize) -> String {
@@ -246,6 +256,13 @@ pub fn run(scn: &Scenario, fault: &Fault) -> SimResult<RunOut> {
                     (OpS::Stream(..), true) => Resp::result(5, Res::ok(&tok(cand, seq))),
                     (OpS::Stream(..), false) => Resp::Entry(Entry::simple(&tok(cand, seq))),
                 };
+                if scn.notice_before.map(|k| k as usize % total == flat).unwrap_or(false) {
+                    // (not a PDU of any operation: it lies inside the span of the PDU that follows it)
+                    r_bytes.extend_from_slice(&RespMsg::new(0, Resp::Result { app: 24, res: Res::code(52, "notice"), sasl: None, exop_name: Some("1.3.6.1.4.1.1466.20036".into()), exop_val: None }).encode());
+                }
+                if scn.refs && !last && seq % 2 == 1 && matches!(scn.ops[cand], OpS::Stream(_, true, _)) {
+                    r_bytes.extend_from_slice(&RespMsg::new(wire_id[&cand], Resp::Reference(vec![format!("ldap://ref/{}", seq)])).encode());
+                }
                 r_bytes.extend_from_slice(&RespMsg::new(wire_id[&cand], resp).encode());
                 out.pdu_ends.push((r_bytes.len(), cand, seq));
                 next[cand] += 1;
@@ -529,6 +546,12 @@ pub fn check(scn: &Scenario, obs: &mut Obs) -> Result<(), Fail> {
     }
     obs.evals(faults.len() as u64);
     obs.label(format!("faults-per-scenario~{}", (faults.len() / 100) * 100));
+    if scn.notice_before.is_some() {
+        obs.label("id-0-notice-inside-the-response-stream");
+    }
+    if scn.refs && scn.ops.iter().any(|o| matches!(o, OpS::Stream(n, true, _) if *n >= 2)) {
+        obs.label("references-skipped-by-EntriesOnly");
+    }
     if scn.ops.iter().any(|o| matches!(o, OpS::BigAdd(_))) {
         obs.label("request>=16KiB");
     }
@@ -1008,7 +1031,7 @@ pub fn property() -> Property {
     Property {
         id: "C04",
         level: "fault_enumeration",
-        rule: "generated scenario: 1-5 concurrent operations on their own handles (7 single-result kinds; direct and EntriesOnly streams with 0-6 entries, optionally with a lagging consumer that stops reading after k items until the fault has happened), a generated merge order of the response stream, optional 1-byte reads and small write sizes, scheduler seed. For each scenario the fault-free run fixes the response stream R and request stream W; then EXHAUSTIVELY: clean EOF and ConnectionReset after every byte offset 0..=|R|; an undecodable frame (4 kinds the decoder rejects), a client unbind(), and a write failure that hits exactly an Abandon / an Unbind request (read side open and silent) at every PDU boundary of R; a write failure after every byte offset 0..|W| (partial write then failure); drop of the last handle. Oracle per run: every operation future, every stream call and drive() complete before a virtual-clock watchdog; an operation whose complete response preceded the fault returns it intact; every other pending operation returns Err - never Ok, a stream returns exactly the fully arrived items in order and then Err; an operation started after the fault fails in zero virtual time; unbind: UnbindRequest is the last PDU, the write side is shut down, drive() returns once the server closes; last-handle drop: transport dropped, drive() returns Ok without server help. Lane real-transports (exhaustive, 12 cells): over real TCP, Unix-domain and TLS connections, unbind() and dropping the last handle must make the server see end-of-file, a pending operation must fail and drive() must return. Non-trivial (counted per scenario): >=1 operation pending at the fault and the cut strictly inside a PDU or between two PDUs of one operation. Distinct = hash of (operations, merge order, read mode). Lane paged-faults: a PagedResults (or [EntriesOnly, PagedResults]) stream over 1-4 pages of 0-3 entries served by a scripted server that answers each page request, optionally with a lagging consumer and a bystander operation; EOF / reset / undecodable frame after every response PDU, either right behind it (same burst, before the client can ask for the next page) or after the client reacted; oracle: never a hang, exactly the fully delivered entries are returned, the stream ends normally (finish rc 0) only if the last page's result had arrived - a truncated search is never reported as complete -, the bystander and later operations fail.",
+        rule: "generated scenario: 1-5 concurrent operations on their own handles (7 single-result kinds; direct and EntriesOnly streams with 0-6 entries, optionally with a lagging consumer that stops reading after k items until the fault has happened), a generated merge order of the response stream, optionally an id-0 notification somewhere inside it and reference messages that EntriesOnly streams skip, optional 1-byte reads and small write sizes, scheduler seed. For each scenario the fault-free run fixes the response stream R and request stream W; then EXHAUSTIVELY: clean EOF and ConnectionReset after every byte offset 0..=|R|; an undecodable frame (4 kinds the decoder rejects), a client unbind(), and a write failure that hits exactly an Abandon / an Unbind request (read side open and silent) at every PDU boundary of R; a write failure after every byte offset 0..|W| (partial write then failure); drop of the last handle. Oracle per run: every operation future, every stream call and drive() complete before a virtual-clock watchdog; an operation whose complete response preceded the fault returns it intact; every other pending operation returns Err - never Ok, a stream returns exactly the fully arrived items in order and then Err; an operation started after the fault fails in zero virtual time; unbind: UnbindRequest is the last PDU, the write side is shut down, drive() returns once the server closes; last-handle drop: transport dropped, drive() returns Ok without server help. Lane real-transports (exhaustive, 12 cells): over real TCP, Unix-domain and TLS connections, unbind() and dropping the last handle must make the server see end-of-file, a pending operation must fail and drive() must return. Non-trivial (counted per scenario): >=1 operation pending at the fault and the cut strictly inside a PDU or between two PDUs of one operation. Distinct = hash of (operations, merge order, read mode). Lane paged-faults: a PagedResults (or [EntriesOnly, PagedResults]) stream over 1-4 pages of 0-3 entries served by a scripted server that answers each page request, optionally with a lagging consumer and a bystander operation; EOF / reset / undecodable frame after every response PDU, either right behind it (same burst, before the client can ask for the next page) or after the client reacted; oracle: never a hang, exactly the fully delivered entries are returned, the stream ends normally (finish rc 0) only if the last page's result had arrived - a truncated search is never reported as complete -, the bystander and later operations fail.",
         assumptions: &["client-side events (unbind, drop) are injected only when the driver has quiesced, so that legitimate select! races are not reported", "the scripted transport fails writes after shutdown like a socket", "evaluations counts every injected fault run; distinct_nontrivial counts scenarios containing at least one non-trivial fault"],
         lanes: vec![
             Box::new(PLane { name: "faults", cases: |t| t.pick(60, 600), strat, check }),
